@@ -1122,6 +1122,8 @@ func (data *Data) UserPrivilege(name, database string) (*influxql.Privilege, err
 func (data *Data) Clone() *Data {
 	other := *data
 
+	other.MetaNodes = append([]NodeInfo(nil), data.MetaNodes...)
+	other.DataNodes = append([]NodeInfo(nil), data.DataNodes...)
 	other.Databases = data.CloneDatabases()
 	other.Users = data.CloneUsers()
 
